@@ -156,6 +156,16 @@ impl Trigger {
         #[cfg(emit_rs_emit_verif)]
         crate::verif::point("trigger_wait");
 
+        // Report the time budget this wait was given
+        #[cfg(emit_rs_emit_verif)]
+        crate::verif::event(
+            "trigger_wait",
+            0,
+            None,
+            timeout.as_secs() as usize,
+            timeout.subsec_nanos() as usize,
+        );
+
         let mut flushed_slot = (self.0).0.lock().unwrap();
         loop {
             // If we flushed then return
